@@ -91,6 +91,9 @@ func runC08(seed int64, n int, long bool) {
 		runC08Interleave(seed, rounds+rounds/4)
 	}
 	if len(sum.Failures) == 0 {
+		runC08ReadInterleave(seed, rounds)
+	}
+	if len(sum.Failures) == 0 {
 		c08Server(seed, rounds)
 	}
 }
@@ -690,7 +693,31 @@ func c08Server(seed int64, rounds int) {
 						return
 					default:
 					}
-					switch (i + rd) % 3 {
+					switch (i + rd) % 7 {
+					case 3:
+						v, err := cl.Do("HMGET", "h"+sfx, "f1", "f2")
+						if err == nil && v.Kind == '*' && len(v.Arr) == 2 && string(v.Arr[0].Str) != string(v.Arr[1].Str) {
+							torn.Add(1)
+							tornMsg.Store(fmt.Sprintf("HMGET h%s f1 f2 answered %q and %q; the writer sets both fields to the same value in ONE HSET / HMSET command", sfx, v.Arr[0].Str, v.Arr[1].Str))
+						}
+					case 4:
+						v, err := cl.Do("SCARD", "e"+sfx)
+						if err == nil && v.Kind == ':' && v.Int%2 != 0 {
+							torn.Add(1)
+							tornMsg.Store(fmt.Sprintf("SCARD e%s answered %d; the writer adds two members per SADD command", sfx, v.Int))
+						}
+					case 5:
+						v, err := cl.Do("ZCARD", "z"+sfx)
+						if err == nil && v.Kind == ':' && v.Int%2 != 0 {
+							torn.Add(1)
+							tornMsg.Store(fmt.Sprintf("ZCARD z%s answered %d; the writer adds two members per ZADD command", sfx, v.Int))
+						}
+					case 6:
+						v, err := cl.Do("LLEN", "l"+sfx)
+						if err == nil && v.Kind == ':' && v.Int%2 != 0 {
+							torn.Add(1)
+							tornMsg.Store(fmt.Sprintf("LLEN l%s answered %d; the writer pushes two elements per RPUSH / LPUSH command", sfx, v.Int))
+						}
 					case 0:
 						v, err := cl.Do("MGET", a, b)
 						if err == nil && v.Kind == '*' && len(v.Arr) == 2 && string(v.Arr[0].Str) != string(v.Arr[1].Str) {
@@ -717,6 +744,19 @@ func c08Server(seed int64, rounds int) {
 		if err == nil {
 			for i := 1; i <= 1200; i++ {
 				val := fmt.Sprint(i)
+				// one command writing several elements is one atomic change
+				switch i % 5 {
+				case 0:
+					wcl.Do("HSET", "h"+sfx, "f1", val, "f2", val)
+				case 1:
+					wcl.Do("SADD", "e"+sfx, "a"+val, "b"+val)
+				case 2:
+					wcl.Do("ZADD", "z"+sfx, "1", "a"+val, "2", "b"+val)
+				case 3:
+					wcl.Do("RPUSH", "l"+sfx, val, val)
+				default:
+					wcl.Do("HMSET", "h"+sfx, "f2", val+"x", "f1", val+"x")
+				}
 				switch i % 4 {
 				case 0:
 					wcl.Do("MSET", a, val, b, val)
